@@ -110,7 +110,7 @@ def execute(G, c):
             raise core.Failure("value:" + sig, "get returned %r (%s), encoded value denotes %r [%s %s]" % (got, type(got).__name__, v.py, v.kind, v.tlv.hex()))
     elif op == "get_many":
         exp = {rb.oid_text(n): v for n, v in zip(names, vals) if v.kind != "null"}
-        if not isinstance(got, dict) or list(got.keys()) != list(exp.keys()):
+        if not isinstance(got, dict) or sorted(got.keys()) != sorted(exp.keys()):
             raise core.Failure("keys:" + sig, "get_many keys %r, expected %r" % (list(got) if isinstance(got, dict) else got, list(exp)))
         for k, v in exp.items():
             if not gen.py_equal(v.py, got[k]):
